@@ -420,8 +420,30 @@ fn finish(ctx: &mut Ctx, cl: &Classes, shape: &'static str, ops: &[Op]) {
 }
 
 /// TMS flags that both parts check after every operation.
-fn check_flags(tms: &TruthMaintenanceSystem, hs: &[FactHandle], m: &Model, step: usize, op: &Op) -> Option<Verdict> {
+/// The facts of a history that bypass the truth maintenance: every plain insert at a step = 2 (mod 3) -- unless the
+/// history later hands the TMS a logical justification FOR that fact (`add_justification(f, ..)`): a TMS that was
+/// never told the fact is explicit would rightly treat it as a derived one, so such facts take the ordinary road.
+fn raw_facts(ops: &[Op]) -> Vec<usize> {
+    let mut n = 0usize;
+    let mut out = vec![];
+    for (step, op) in ops.iter().enumerate() {
+        if matches!(op, Op::Ins(_) | Op::Log(_)) {
+            if matches!(op, Op::Ins(true)) && step % 3 == 2 && !ops.iter().any(|o| matches!(o, Op::Just(t, _) if *t == n)) {
+                out.push(n);
+            }
+            n += 1;
+        }
+    }
+    out
+}
+
+/// `raw`: facts the truth maintenance was never told about (put straight into working memory): its flags say
+/// nothing about them, only their presence is judged (by the caller).
+fn check_flags(tms: &TruthMaintenanceSystem, hs: &[FactHandle], m: &Model, step: usize, op: &Op, raw: &[usize]) -> Option<Verdict> {
     for f in 0..m.n() {
+        if raw.contains(&f) {
+            continue;
+        }
         let h = hs[f];
         let hvj = tms.has_valid_justification(h);
         if m.live[f] {
@@ -481,7 +503,15 @@ pub fn run_engine(s: &mut Src, ctx: &mut Ctx) -> Verdict {
     // drawn last: one engine in six is not new - unrelated facts were inserted before (every second one retracted
     // again), so that the history's handles lie beyond a round number and older retractions are on record
     let warm = if ctx.exh == 0 && s.chance(1, 6) { crate::c17::warm_count(s) } else { 0 };
-    ctx.describe(|| if warm > 0 { format!("engine after {} unrelated warm-up facts (every second retracted); {}", warm, show(&ops)) } else { show(&ops) });
+    // A plain fact can also be put straight into the engine's working memory (`working_memory_mut().insert`, what a
+    // stream source does): the truth maintenance then never heard of it, yet it is a present fact, a legal premise,
+    // and its retraction must cascade like any other. Every plain insert at a step = 2 (mod 3) takes that road.
+    let raw_list = raw_facts(&ops);
+    let raw_txt = if raw_list.is_empty() { String::new() } else { format!("; put straight into working_memory_mut(): {:?}", raw_list.iter().map(|f| format!("f{}", f)).collect::<Vec<_>>()) };
+    ctx.describe(|| if warm > 0 { format!("engine after {} unrelated warm-up facts (every second retracted); {}{}", warm, show(&ops), raw_txt) } else { format!("{}{}", show(&ops), raw_txt) });
+    if !raw_list.is_empty() {
+        ctx.label("fact-put-straight-into-working-memory");
+    }
     let mut eng = IncrementalEngine::new();
     for w in 0..warm {
         let h = eng.insert_explicit("Warm".to_string(), data(1000 + w));
@@ -501,7 +531,13 @@ pub fn run_engine(s: &mut Src, ctx: &mut Ctx) -> Verdict {
         match op {
             Op::Ins(plain) => {
                 let i = hs.len();
-                let h = if *plain { eng.insert("Base".to_string(), data(i)) } else { eng.insert_explicit("Base".to_string(), data(i)) };
+                let h = if raw_list.contains(&i) {
+                    eng.working_memory_mut().insert("Base".to_string(), data(i))
+                } else if *plain {
+                    eng.insert("Base".to_string(), data(i))
+                } else {
+                    eng.insert_explicit("Base".to_string(), data(i))
+                };
                 new_fact = Some(h);
             }
             Op::Log(p) => {
@@ -554,7 +590,7 @@ pub fn run_engine(s: &mut Src, ctx: &mut Ctx) -> Verdict {
                 format!("step {} ({:?}): {}; working_memory().get(f{}).is_some()={} model={} | history: {}", step, op, what, f, present, m.live[f], show(&ops[..=step])),
             );
         }
-        if let Some(v) = check_flags(eng.tms(), &hs, &m, step, op) {
+        if let Some(v) = check_flags(eng.tms(), &hs, &m, step, op, &raw_list) {
             return v;
         }
         classify(ctx, &mut cl, op, &m, &info);
@@ -587,14 +623,19 @@ pub fn run_tms(s: &mut Src, ctx: &mut Ctx) -> Verdict {
     }
     let off = warm as u64;
     let mut hs: Vec<FactHandle> = Vec::new();
+    let raw_list = raw_facts(&ops);
     let mut m = Model::default();
     let mut cl = Classes::default();
     for (step, op) in ops.iter().enumerate() {
         let mut returned: Option<Vec<FactHandle>> = None;
         match op {
-            Op::Ins(_) => {
+            Op::Ins(plain) => {
                 let h = FactHandle::new(off + hs.len() as u64 + 1);
-                tms.add_explicit_justification(h);
+                // (a fact the caller holds but never registered -- see run_engine -- is a premise like any other)
+                let _ = plain;
+                if !raw_list.contains(&hs.len()) {
+                    tms.add_explicit_justification(h);
+                }
                 hs.push(h);
             }
             Op::Log(p) => {
@@ -657,10 +698,13 @@ pub fn run_tms(s: &mut Src, ctx: &mut Ctx) -> Verdict {
                 );
             }
         }
-        if let Some(v) = check_flags(&tms, &hs, &m, step, op) {
+        if let Some(v) = check_flags(&tms, &hs, &m, step, op, &raw_list) {
             return v;
         }
         classify(ctx, &mut cl, op, &m, &info);
+    }
+    if !raw_list.is_empty() {
+        ctx.label("premise-never-registered-with-the-tms");
     }
     finish(ctx, &cl, shape, &ops);
     Verdict::Pass
@@ -682,7 +726,7 @@ pub fn property() -> Property {
     Property {
         id: "C08",
         level: "exploration",
-        rule: "generated: histories of <= 10 operations over <= 7 facts: insert/insert_explicit, insert_logical(1-3 live premises), tms_mut().add_logical_justification(live fact, 1-3 live premises created before it), retract(any handle ever issued, live or already absent); the justifications of one fact name the same source rule (two facts in three) or a rule per step; about two thirds start from a chain / and-diamond / or-diamond / two-justifications-sharing-a-premise / explicit-fact-with-extra-logical-justification prefix. Exhaustive parts enumerate every such history of exactly N operations (all prefixes are checked on the way) over <= F facts with <= P premises per justification (part name exhNFP, e.g. exh942 = 9 operations, 4 facts, 2 premises; exh1032 = 10 operations, 3 facts). Oracle: model from the statement (live set + justification list; retract removes the target, then to a fixpoint every fact with no explicit justification and no justification whose premises are all live). engine-* parts: after every operation working_memory().get(h).is_some() == model liveness for every handle ever issued, is_explicit/is_logical agree for live facts, has_valid_justification is true for live facts and equals model support for facts without explicit justification. tms-* parts: the set returned by retract_with_cascade (minus the target) equals the set the model removes besides the target, plus the same flag checks. Non-trivial: the history contains a retraction of a live fact that removes >= 2 facts, or leaves a fact alive only through another (second logical or explicit) justification after one of its justifications became invalid, or targets a derived fact; distinct by operation sequence.",
+        rule: "generated: histories of <= 10 operations over <= 7 facts: insert/insert_explicit (a plain insert at a step = 2 mod 3 goes straight into working_memory_mut() resp. is never registered with the bare TMS: present, a legal premise, its retraction cascades; only presence / the returned cascade is judged for it), insert_logical(1-3 live premises), tms_mut().add_logical_justification(live fact, 1-3 live premises created before it), retract(any handle ever issued, live or already absent); the justifications of one fact name the same source rule (two facts in three) or a rule per step; about two thirds start from a chain / and-diamond / or-diamond / two-justifications-sharing-a-premise / explicit-fact-with-extra-logical-justification prefix. Exhaustive parts enumerate every such history of exactly N operations (all prefixes are checked on the way) over <= F facts with <= P premises per justification (part name exhNFP, e.g. exh942 = 9 operations, 4 facts, 2 premises; exh1032 = 10 operations, 3 facts). Oracle: model from the statement (live set + justification list; retract removes the target, then to a fixpoint every fact with no explicit justification and no justification whose premises are all live). engine-* parts: after every operation working_memory().get(h).is_some() == model liveness for every handle ever issued, is_explicit/is_logical agree for live facts, has_valid_justification is true for live facts and equals model support for facts without explicit justification. tms-* parts: the set returned by retract_with_cascade (minus the target) equals the set the model removes besides the target, plus the same flag checks. Non-trivial: the history contains a retraction of a live fact that removes >= 2 facts, or leaves a fact alive only through another (second logical or explicit) justification after one of its justifications became invalid, or targets a derived fact; distinct by operation sequence.",
         assumptions: vec![
             "a derived fact that is itself the target of retract() is absent afterwards even if its premises are still present (the statement's 'exactly when' is read for facts that were not retracted directly)".into(),
             "support graphs are acyclic: an added justification only uses premises created before the justified fact".into(),
